@@ -31,6 +31,18 @@ def _oracles_for(world, plan, res):
     return out
 
 
+def _bodies_intact(method: list) -> bool:
+    """Every Block / Watch / Alarm / Macro line is followed by a more deeply indented, non-blank line."""
+    import re
+    for k, (_, c) in enumerate(method):
+        if re.match(r"^\s*([0-9.]+ )?(Block|Watch|Alarm|Macro)\b", c):
+            ind = len(c) - len(c.lstrip(" "))
+            nxt = method[k + 1][1] if k + 1 < len(method) else ""
+            if not nxt.strip() or len(nxt) - len(nxt.lstrip(" ")) <= ind:
+                return False
+    return True
+
+
 class SimE(Simulator):
     name = "sime"
     components_real = [
@@ -514,7 +526,10 @@ class SimE(Simulator):
             j = i + 1
             while j < len(m) and (m[j][1].strip() == "" or len(m[j][1]) - len(m[j][1].lstrip(" ")) > ind):
                 j += 1
-            yield dict(plan, method=m[:i] + m[j:])
+            cand = m[:i] + m[j:]
+            if plan.get("cfg", {}).get("wellformed") and not _bodies_intact(cand):
+                continue        # the parser nests the next line under a body-less Block/Watch/Alarm/Macro: not the same method
+            yield dict(plan, method=cand)
         ops = plan["ops"]
         for i, op in enumerate(ops):
             if op[0] == "tick":
